@@ -97,6 +97,49 @@ CLAIMS = {
             "Not decided: that each fold computes the right value; substitution correctness; frozen re-optimisation "
             "equivalence. Trusted: rustc front end, svfacts, call-graph model, sink table.",
             "DESIGN.md section 2, C02"),
+    "C05": ("who-may-read layering rule + control-dependence of error recording on dialect flag branches (MIR)",
+            "One clause only ('enabling more dialect features never rejects an accepted file nor changes its tree'): no "
+            "lexer/parser/cursor function reads a Dialect field; around each of the 10 flag tests an error is recorded "
+            "only on blocks reachable solely through the disabled edge; every 'not allowed in this dialect' message is "
+            "under such an edge.",
+            "Not decided (the bulk of C05): absence of panics in lexer/parser index arithmetic, span containment, "
+            "char boundaries - runtime values. Trusted: rustc front end, svfacts.",
+            "DESIGN.md section 2, C05"),
+    "C06": ("K9 table extraction from the MIR switch of infix_binding_power checked against an encoded reference "
+            "precedence relation + sibling agreement + first-set agreement",
+            "Precedence/first-set clauses only: token->operator pairing, uniform power inside a class, left "
+            "associativity, strictly ordered classes, `not`/`not in` literals equal to the comparison class; the two "
+            "copies of the infix and postfix loops agree; is_expr_start covers every token the atom/unary/not-prefix "
+            "parsers accept.",
+            "Not decided: acceptance equality with the reference grammar for statements/arguments; print/parse round "
+            "trip. Trusted: the encoded reference precedence classes (Starlark spec), rustc front end, svfacts.",
+            "DESIGN.md section 2, C06"),
+    "C09": ("impl-table sibling agreement + must-pass-through to the shared numeric hash + provenance-pair inventory "
+            "(backward slice) of Hashed::new_unchecked",
+            "Hashing-coherence clauses only: small int / big int / float override the same hash entry points and "
+            "funnel through NumRef::get_hash_64 / get_hash, feeding the hasher exactly that u64; every "
+            "Hashed::new_unchecked pairs hash and key with a reviewed provenance pair; frozen/unfrozen sibling types "
+            "override the same hash/equality entry points.",
+            "Not decided: reflexivity/symmetry/transitivity, ordering totality, sort stability. Trusted: reviewed pair "
+            "table, rustc front end, svfacts.",
+            "DESIGN.md section 2, C09"),
+    "C10": ("who-may-construct inventory + branch-sensitive dominance (Err edge of try_from) + intrinsic ban with "
+            "positive control + source inventory of inline payloads",
+            "Structural clauses only: StarlarkInt::Big only on the Err edge of InlineInt::try_from (or copies); "
+            "InlineInt constructed only at reviewed sites after the range test; no wrapping/overflowing/unchecked/"
+            "saturating integer intrinsic in the numeric modules; every StarlarkInt::Small payload comes from a "
+            "checked/closed operation, conversion or constant; float->int casts validated by a round trip.",
+            "Not decided: that each checked fast path / bigint fallback computes the right number (floor semantics, "
+            "shift thresholds, string conversion). Trusted: rustc front end, svfacts.",
+            "DESIGN.md section 2, C10"),
+    "C11": ("paired-update rule over SmallMap methods + precondition inventory with idiom recognition (fresh container "
+            "from one source, failed-lookup dominance, forwarders)",
+            "Two clauses: every SmallMap method that structurally mutates the entry vector maintains the index in the "
+            "same body or holds the RebuildIndexOnDrop guard constructed before the mutation (its drop rebuilds); every "
+            "duplicate-unchecked insertion is a forwarder, a fresh-container copy/subset of one map/set, dominated by a "
+            "failed lookup, or reviewed.",
+            "Not decided: the index adjustment arithmetic (history property). Trusted: reviewed table, rustc front end.",
+            "DESIGN.md section 2, C11"),
 }
 
 
